@@ -409,6 +409,11 @@ func checkContexts(t *fw.T, r *rand.Rand, prog *gen.Node, stratum string) {
 	if c16Expand {
 		l.E.Parens = 0 // a macro word expands to statements: it stands where a statement can stand, not inside parentheses
 	}
+	// one source in eight leaves its innermost blocks open at end of input and is parsed in tolerant mode only (which
+	// accepts that): the last tokens of the text stand as deep as the ones before them
+	if r.IntN(8) == 0 {
+		l.L.CutBrace = 1 + r.IntN(3)
+	}
 	rd := gen.Render(prog, r, l.E, l.L)
 	byPos := map[token.Position]*gen.Tok{}
 	maxDepth := 0
@@ -433,7 +438,10 @@ func checkContexts(t *fw.T, r *rand.Rand, prog *gen.Node, stratum string) {
 	}
 	t.Feature("nesting-depths", fmt.Sprint(maxDepth))
 	modes := []Mode{{}, {Tolerant: true, Smart: false}}
-	if !hasLineLeadingBracket(src) {
+	if rd.CutBraces > 0 {
+		modes = []Mode{{Tolerant: true}}
+		t.Count("sources_with_blocks_left_open_parsed_in_tolerant_mode", 1)
+	} else if !hasLineLeadingBracket(src) {
 		// no '(' / '[' first on a line: smart-semicolon mode reads the text like the default mode, and the context
 		// queries answer the same questions
 		modes = append(modes, Mode{Smart: true, Tolerant: r.IntN(2) == 0})
